@@ -4,6 +4,12 @@ Lemmas about the string helpers of Model/Headers/Basic.lean (core Lean only).
 -/
 namespace Rtsp.Hdr
 
+/-- `∀ a, o = some a → P a` is decidable: WellFormed predicates are conjunctions of such clauses -/
+instance decForallSome {α : Type} (o : Option α) (P : α → Prop) [DecidablePred P] : Decidable (∀ a, o = some a → P a) :=
+  match o with
+  | none => isTrue (by intro a h; cases h)
+  | some x => if h : P x then isTrue (by intro a e; cases e; exact h) else isFalse (fun H => h (H x rfl))
+
 /-! ### splitOn / cut / joinWith -/
 
 theorem splitOn_ne_nil (sep : Char) (s : Str) : splitOn sep s ≠ [] := by
